@@ -138,12 +138,12 @@ def finish(pid, spec, obs, ctx, t0):
         by_rule[o.rule][1] += 1 if o.ok else 0
         by_rule[o.rule][2] += 1 if o.undecided else 0
     samples = []
-    seen_rules = set()
+    per = {}
     for o in real:
-        if o.rule not in seen_rules or not o.ok:
-            seen_rules.add(o.rule)
+        per[o.rule] = per.get(o.rule, 0) + 1
+        if per[o.rule] <= 4 or not o.ok:
             samples.append(o.as_json())
-        if len(samples) >= 40:
+        if len(samples) >= 60:
             break
     cov = {
         "evaluations": len(real),
